@@ -168,6 +168,23 @@ def cube_queries(prefix, kinds, cks, timeout, mem, a=16, **kw):
     return qs
 
 
+def gen_queries(prefix, kinds, cks, timeout, mem=6, a=16):
+    """per-generator harnesses (reached through the hook verif_add_legals)"""
+    qs = []
+    for k in kinds:
+        for c in cks:
+            if c == 2 and k != "king":
+                continue  # in double check the dispatcher calls the king generator only (c16_dispatch)
+            qs.append(Query("brd::%s_%s_c%d" % (prefix, k, c), stubbing=True, rules=board_rules(a), default_unwind=2, timeout=timeout, mem_gb=mem))
+    return qs
+
+
+GEN_NOTE = ("quick tier decides generate_moves_for compositionally: dispatch layer with the generators stubbed (every board value, mask, abort point) "
+            "+ each real generator through the hook on a single-origin mask holding one of its pieces + each generator silent on masks holding none "
+            "of its pieces + 'no non-king move is legal in double check' (reference lemma); the thorough tier also runs the public entry point "
+            "on single-origin masks (12 GB per cube)")
+
+
 # ---------------------------------------------------------------------------- C04
 def plan_c04(res, tier, seed, only):
     res.functions = ["Board::is_legal", "Board::king_is_legal", "Board::can_castle", "Board::king_safe_on", "Board::target_squares",
@@ -263,10 +280,14 @@ def plan_c05(res, tier, seed, only):
     engine.run_plan(res, filt(qs, only), workers=9)
     import e2
     e2.run_c05(res, tier, seed)
-    if tier == "thorough":
+    try:
+        has_bmi2 = " bmi2" in open("/proc/cpuinfo").read()
+    except OSError:
+        has_bmi2 = False
+    if has_bmi2:
         e2.run_c05(res, tier, seed, pext=True)
     else:
-        res.notrun.append("PEXT back end (feature pext, +bmi2): thorough tier")
+        res.notrun.append("PEXT back end: this CPU has no BMI2, so the pext build cannot be produced or replayed here")
     return RULE
 
 
@@ -284,15 +305,17 @@ def plan_c01(res, tier, seed, only):
                                             "both slider back ends: the stubs are proved equal to each back end's lookups in C05"]
     oracle_validation(res)
     cap = 900 if tier == "quick" else 2700
+    res.assumptions.append(GEN_NOTE)
+    base = [Query("c16::c16_dispatch", stubbing=True, timeout=cap, mem_gb=8),
+            Query("brd::c01_double_check_ref", stubbing=True, rules=board_rules(), default_unwind=2, timeout=cap, mem_gb=6)]
+    sliders = ["knight", "bishop", "rook", "queen"]
     if tier == "quick":
-        # the cubes with the most intricate code: king (castling), pawn (en passant), one slider and the knight rotate with the seed
-        rot = ["knight", "bishop", "rook", "queen"]
-        pick = [rot[seed % 4]]
-        kinds = ["king", "pawn"] + pick
-        qs = cube_queries("c01_origin", kinds, [0, 1], cap, 8) + cube_queries("c01_origin", ["king"], [2], cap, 8)
-        res.notrun.append("c01_origin cubes not in {king, pawn, %s} x {0,1} and the >=2-checker cubes of non-king pieces: thorough tier (or another VERIF_SEED)" % pick[0])
+        pick = sliders[seed % 4]
+        qs = base + gen_queries("c01_gen", ["king", "pawn", pick], [0, 1, 2], cap) + gen_queries("c16_silent", ["pawn", pick], [0, 1], cap)
+        res.notrun.append("c01_gen / c16_silent cubes of the kinds other than king, pawn, %s; the public-entry c01_origin cubes: thorough tier (or another VERIF_SEED)" % pick)
     else:
-        qs = cube_queries("c01_origin", KINDS, [0, 1, 2], cap, 8)
+        qs = base + gen_queries("c01_gen", KINDS[:6], [0, 1, 2], cap) + gen_queries("c16_silent", KINDS[:6], [0, 1, 2], cap)
+        qs += cube_queries("c01_origin", KINDS, [0, 1, 2], cap, 12)
     engine.run_plan(res, filt(qs, only), workers=12)
     return RULE
 
@@ -405,8 +428,9 @@ PLANS["C10"] = plan_c10
 def c06_rules(a=4, n=4):
     return [
         HARNESS_CODE,
-        (r"from_board", n + 1, "pieces per (colour, kind): bounded by the harness assumption (<= %d per colour)" % n),
+        (r"from_board", max(n + 1, 7), "6 piece kinds; pieces per (colour, kind) bounded by the harness assumption (<= %d per colour)" % n),
         (r"add_board|BoardBuilder::build", 66, "64 squares"),
+        (r"add_castle_rights", 3, "2 colours"),
         (r"write_piece_config|nth|advance_by|try_fold", 10, "back rank: <= 8 free squares"),
     ] + [r for r in board_rules(a) if r is not HARNESS_CODE]
 
@@ -427,11 +451,11 @@ def plan_c06(res, tier, seed, only):
     oracle_validation(res)
     cap = 900 if tier == "quick" else 3000
     mk = lambda nme, mem=8, **kw: Query("c06::" + nme, stubbing=kw.pop("stubbing", False), rules=c06_rules(a, 4), default_unwind=2, timeout=cap, mem_gb=mem, **kw)
-    qs = [mk("c06_v_board_a%d" % a), mk("c06_v_fresh_a%d" % a), mk("c06_v_castle"), mk("c06_v_ep"), mk("c06_v_clocks"),
+    qs = [mk("c06_v_board_a%d" % a), mk("c06_v_fresh_w_a%d" % a), mk("c06_v_fresh_b_a%d" % a), mk("c06_v_ckpin_a%d" % a), mk("c06_v_castle"), mk("c06_v_ep"), mk("c06_v_clocks"),
           mk("c06_startpos"), mk("c09_build_seq", mem=14, stubbing=True), mk("c06_accessors_setters"),
           mk("c06_set_half_panics", should_panic=True), mk("c06_set_full_panics", should_panic=True)]
     if tier == "thorough":
-        qs += [mk("c06_v_board_a16"), mk("c06_v_fresh_a16")]
+        qs += [mk("c06_v_board_a16"), mk("c06_v_fresh_w_a16"), mk("c06_v_fresh_b_a16"), mk("c06_v_ckpin_a16")]
     engine.run_plan(res, filt(qs, only), workers=10)
     return RULE
 
@@ -484,9 +508,14 @@ def plan_c12(res, tier, seed, only):
     cap = 600 if tier == "quick" else 2700
     qs = [Query("glue::c12_status", stubbing=True, timeout=cap, mem_gb=6),
           Query("c16::c16_dispatch", stubbing=True, timeout=cap, mem_gb=8)]
-    kinds = ["king", "pawn"] if tier == "quick" else KINDS[:6]
-    qs += cube_queries("c16_abort", kinds, [0, 1] if tier == "quick" else [0, 1, 2], cap, 8)
-    engine.run_plan(res, filt(qs, only), workers=10)
+    res.assumptions.append(GEN_NOTE)
+    if tier == "quick":
+        qs += gen_queries("c16_gen_abort", ["king", "pawn"], [0, 1], cap)
+    else:
+        qs += gen_queries("c16_gen_abort", KINDS[:6], [0, 1, 2], cap) + cube_queries("c16_abort", KINDS[:6], [0, 1, 2], cap, 12)
+        qs += [Query("full::c12_sem_n%d_c%d" % (nn, c), stubbing=True, rules=board_rules(16, full_n=nn), default_unwind=2, timeout=cap, mem_gb=16)
+               for nn, c in [(3, 0), (3, 1), (4, 0), (4, 1), (4, 2)]]
+    engine.run_plan(res, filt(qs, only), workers=8)
     return RULE
 
 
@@ -520,13 +549,19 @@ def plan_c16(res, tier, seed, only):
     oracle_validation(res)
     cap = 900 if tier == "quick" else 2700
     qs = [Query("c16::c16_dispatch", stubbing=True, timeout=cap, mem_gb=8), Query("c16::c16_full_mask", stubbing=True, timeout=cap, mem_gb=8)]
+    res.assumptions.append(GEN_NOTE)
     if tier == "quick":
         rot = ["bishop", "rook", "queen"][seed % 3]
-        qs += cube_queries("c16_abort", ["king", "pawn", rot], [0, 1], cap, 8)
-        qs += cube_queries("c01_origin", ["pawn", rot], [0], cap, 8)
-        res.notrun.append("abort/origin cubes of the other kinds (knight, two of bishop/rook/queen) and the >=2-checker cubes: thorough tier or another VERIF_SEED")
+        qs += gen_queries("c16_gen_abort", ["king", "pawn", rot], [0, 1], cap)
+        qs += gen_queries("c16_silent", ["pawn", "king", rot], [0, 1], cap)
+        qs += gen_queries("c01_gen", ["pawn", rot], [0], cap)
+        res.notrun.append("abort/silent/gen cubes of the other kinds (knight, two of bishop/rook/queen), the public-entry cubes and the bounded symbolic-mask harness: thorough tier or another VERIF_SEED")
     else:
-        qs += cube_queries("c16_abort", KINDS[:6], [0, 1, 2], cap, 8) + cube_queries("c01_origin", KINDS, [0, 1, 2], cap, 8)
+        qs += gen_queries("c16_gen_abort", KINDS[:6], [0, 1, 2], cap) + gen_queries("c16_silent", KINDS[:6], [0, 1, 2], cap)
+        qs += gen_queries("c01_gen", KINDS[:6], [0, 1, 2], cap)
+        qs += cube_queries("c16_abort", KINDS[:6], [0, 1, 2], cap, 12)
+        qs += [Query("full::c16_masked_n%d_c%d" % (nn, c), stubbing=True, rules=board_rules(16, full_n=nn), default_unwind=2, timeout=cap, mem_gb=16)
+               for nn, c in [(3, 0), (3, 1), (4, 0), (4, 1), (4, 2)]]
     engine.run_plan(res, filt(qs, only), workers=12)
     return RULE
 
